@@ -24,6 +24,19 @@ func runC13(c *fw.Ctx) {
 	}
 	kinds := map[string]int{}
 	mutate := func(n int, phase2 bool) bool {
+		if phase2 && len(m) > 0 && len(m) <= 5 && r.Intn(12) == 0 { // the batch deletes every entry: the trie is empty afterwards
+			for _, k := range m.Keys() {
+				c.Tracef("del %s", wl.KeyStr([]byte(k)))
+				if err := wl.Upd(t, []byte(k), nil, 0); err != nil {
+					fail("", "delete failed: %v", err)
+					return false
+				}
+				delete(m, k)
+			}
+			kinds["deleted"]++
+			c.Count("batches_that_empty_the_trie", 1)
+			return true
+		}
 		for i := 0; i < n; i++ {
 			keys := m.Keys()
 			x := r.Intn(12)
@@ -109,7 +122,17 @@ func runC13(c *fw.Ctx) {
 	}
 	ncycles := 1 + r.Intn(2)
 	for cycle := 0; cycle < ncycles; cycle++ {
-		t.SaveRoot()
+		via := "Rollback"
+		if r.Intn(2) == 0 {
+			via = "RollbackTrie"
+		}
+		// RollbackTrie is handed its checkpoint: half of those histories never call SaveRoot
+		savedRoot := via == "Rollback" || r.Intn(2) == 0
+		if savedRoot {
+			t.SaveRoot()
+		} else {
+			c.Count("checkpoints_without_SaveRoot", 1)
+		}
 		cm := m.Copy()
 		croot, cw := cm.Ref()
 		var copied wmpt.Node // alternative checkpoint object for RollbackTrie: a copy of the live root
@@ -117,8 +140,10 @@ func runC13(c *fw.Ctx) {
 			copied = t.CopyRoot(r.Intn(8))
 		}
 		s0 := st.KeySet()
-		c.Tracef("checkpoint (SaveRoot) root=%x weight=%d", croot[:4], cw)
-		abandoned := r.Intn(7) == 0 // the batch is never committed: the block is abandoned and rolled back as it is
+		c.Tracef("checkpoint (SaveRoot called: %v) root=%x weight=%d", savedRoot, croot[:4], cw)
+		// the batch is never committed: the block is abandoned and rolled back as it is (only from a checkpoint taken with
+		// SaveRoot: without it the trie cannot know that its last commit is the checkpoint's own and not part of the batch)
+		abandoned := savedRoot && r.Intn(6) == 0
 		if !mutate(1+r.Intn(8), true) {
 			return
 		}
@@ -151,9 +176,7 @@ func runC13(c *fw.Ctx) {
 			}
 			c.Count("empty_commits_before_rollback", 1)
 		}
-		via := "Rollback"
-		if r.Intn(2) == 0 {
-			via = "RollbackTrie"
+		if via == "RollbackTrie" {
 			c.Tracef("RollbackTrie(checkpoint hash node)")
 			if cw > 0 && r.Intn(2) == 0 {
 				c.Tracef("(checkpoint object = CopyRoot taken at the checkpoint)")
@@ -292,7 +315,7 @@ func init() {
 		ID:    "C13",
 		Level: "exploration",
 		Rule: "each case: build and commit a checkpoint state at a collapse level 0..5 (1 in 12 with an empty checkpoint; optionally one GC pass), SaveRoot, then 1..8 changes (new keys, changed values, unchanged re-writes, delete-and-re-add of identical content, deletes), " +
-			"commit at the same level (one batch in seven is never committed: the block is abandoned and rolled back as it is; a quarter of the batches see a garbage-collection pass while still uncommitted), optionally one GC pass, optionally a second Commit with nothing to write (possibly after a rejected delete of an absent key), then Rollback() or RollbackTrie (with a hash node, or with a CopyRoot(level) copy taken at the checkpoint). Oracle: Root()/Weight() equal the checkpoint's; the full observational check (every block's owner, value, verifying proof; every canonical node present) passes on the live trie and on a trie reopened " +
+			"commit at the same level (one batch in six from a SaveRoot checkpoint is never committed: the block is abandoned and rolled back as it is; one batch in twelve on a small trie deletes every entry; a quarter of the batches see a garbage-collection pass while still uncommitted), optionally one GC pass, optionally a second Commit with nothing to write (possibly after a rejected delete of an absent key), then Rollback() or RollbackTrie (half of the RollbackTrie histories never call SaveRoot - the checkpoint is what the caller noted -; with a hash node, or with a CopyRoot(level) copy taken at the checkpoint). Oracle: Root()/Weight() equal the checkpoint's; the full observational check (every block's owner, value, verifying proof; every canonical node present) passes on the live trie and on a trie reopened " +
 			"from the checkpoint root; with S0/S1/S2 the storage key sets at checkpoint / after the commit / after rollback, (S1 \\ S0) ∩ S2 is empty; a quarter of the quick cases and all thorough cases add two GC passes after the rollback and repeat the checks; a third of the histories then apply the same batch again, commit and roll back a second time (nothing of either commit may remain); then the history continues from the rolled-back trie (new changes, commit, full check, reopen), and half of the histories run a second checkpoint/commit/rollback cycle. distinct non-trivial = distinct traces",
 		Cases: func(tier string) int {
 			if tier == "thorough" {
@@ -302,7 +325,7 @@ func init() {
 		},
 		Run: runC13,
 		Floors: map[string]int64{"rollbacks": 20000, "rollback_via:Rollback": 8000, "rollback_via:RollbackTrie": 8000, "gc_between_commit_and_rollback": 8000, "change:unchanged-rewrite": 3000, "change:del-readd-identical": 3000,
-			"change:new": 20000, "change:deleted": 5000, "post_rollback_gc_checks": 4000, "commits_after_rollback": 10000, "retried_batches_rolled_back": 4000, "rollbacks_to_a_copied_root": 3000, "empty_commits_before_rollback": 4000, "abandoned_batches_rolled_back": 2500, "gc_passes_on_the_uncommitted_batch": 5000},
+			"change:new": 20000, "change:deleted": 5000, "post_rollback_gc_checks": 4000, "commits_after_rollback": 10000, "retried_batches_rolled_back": 4000, "rollbacks_to_a_copied_root": 3000, "empty_commits_before_rollback": 4000, "abandoned_batches_rolled_back": 2500, "gc_passes_on_the_uncommitted_batch": 5000, "batches_that_empty_the_trie": 800, "checkpoints_without_SaveRoot": 4000},
 		Assumptions: []string{"at most one GC pass between the commit and the rollback (the property's domain)"},
 	})
 }
